@@ -4,12 +4,14 @@
 // ORD enumerated, one mutation KIND enumerated, mutation parameters symbolic) and read by the library.
 // Harness A (all byte strings vs. reference decoder incl. duplicate detection, per-entry frame, skipping of
 // unknown/deleted ids) is C04's lang_harness on the table types; it is instantiated here for the framing table.
-//@tu unwind=12 memunwind=70 loop:ReadEntries=6
+//@tu unwind=12 memunwind=70 loop:ReadEntries=6 timeout=600
 //@h _n(\d+)$ : loop:ReadEntries=7
 #include "rd.h"
 
-struct TF { nop::Entry<u8, 1> a; nop::Entry<u16, 2> b; nop::Entry<S0, 3> c; nop::Entry<u8, 4, nop::DeletedEntry> d; NOP_TABLE_HASH(0x7b, TF, a, b, c, d); };
-template <> struct Meta<TF> : MetaTable<TF, 0x7b, E<TF, u8, 1, nop::Entry<u8, 1>, &TF::a>, E<TF, u16, 2, nop::Entry<u16, 2>, &TF::b>, E<TF, S0, 3, nop::Entry<S0, 3>, &TF::c>, DEL<TF, 4>> {};
+// payloads with fixed-length encodings (bool: 1 byte, float: 5, pair<bool,float>: 8): framing, not payload classes, is the subject here
+using PBF = std::pair<bool, float>;
+struct TF { nop::Entry<bool, 1> a; nop::Entry<float, 2> b; nop::Entry<PBF, 3> c; nop::Entry<u8, 4, nop::DeletedEntry> d; NOP_TABLE_HASH(0x7b, TF, a, b, c, d); };
+template <> struct Meta<TF> : MetaTable<TF, 0x7b, E<TF, bool, 1, nop::Entry<bool, 1>, &TF::a>, E<TF, float, 2, nop::Entry<float, 2>, &TF::b>, E<TF, PBF, 3, nop::Entry<PBF, 3>, &TF::c>, DEL<TF, 4>> {};
 
 enum Kind { kNone, kDuplicate, kHash, kShrink, kGrowPadded, kGrowUnpadded, kCorrupt, kUnknownId, kDeletedId };
 
@@ -29,9 +31,9 @@ static void framing_harness() {
   vassume(badhash != 0x7b);
   vassume(unk != 1 && unk != 2 && unk != 3 && unk != 4);
   Ent e[3];
-  e[0].id = 1; e[0].present = !v.a.empty(); { Out t(e[0].val, 12); if (e[0].present) Meta<u8>::enc(v.a.get(), t); e[0].n = t.n; }
-  e[1].id = 2; e[1].present = !v.b.empty(); { Out t(e[1].val, 12); if (e[1].present) Meta<u16>::enc(v.b.get(), t); e[1].n = t.n; }
-  e[2].id = 3; e[2].present = !v.c.empty(); { Out t(e[2].val, 12); if (e[2].present) Meta<S0>::enc(v.c.get(), t); e[2].n = t.n; }
+  e[0].id = 1; e[0].present = !v.a.empty(); { Out t(e[0].val, 12); if (e[0].present) Meta<bool>::enc(v.a.get(), t); e[0].n = t.n; }
+  e[1].id = 2; e[1].present = !v.b.empty(); { Out t(e[1].val, 12); if (e[1].present) Meta<float>::enc(v.b.get(), t); e[1].n = t.n; }
+  e[2].id = 3; e[2].present = !v.c.empty(); { Out t(e[2].val, 12); if (e[2].present) Meta<PBF>::enc(v.c.get(), t); e[2].n = t.n; }
   static const int perm[6][3] = {{0, 1, 2}, {0, 2, 1}, {1, 0, 2}, {1, 2, 0}, {2, 0, 1}, {2, 1, 0}};
   const int target = which % 3;                       // the entry the mutation applies to
   const std::size_t d = 1 + dd % 3;                   // 1..3 bytes
@@ -91,12 +93,12 @@ FH(hq, 0, kNone, PBR) FH(hq, 3, kNone, PBR) FH(hq, 5, kNone, BndPBR) FH(ht, 1, k
 FH(hq, 0, kDuplicate, PBR) FH(hq, 4, kDuplicate, BR) FH(ht, 2, kDuplicate, SR)
 FH(hq, 1, kHash, PBR) FH(ht, 0, kHash, SR)
 FH(hq, 0, kShrink, PBR) FH(hq, 5, kShrink, BR) FH(ht, 2, kShrink, BndPBR) FH(ht, 3, kShrink, SR)
-FH(hq, 0, kGrowPadded, PBR) FH(hq, 2, kGrowPadded, BR) FH(hq, 4, kGrowPadded, SR) FH(ht, 5, kGrowPadded, BndPBR)
+FH(hq, 0, kGrowPadded, PBR) FH(hq, 2, kGrowPadded, BR) FH(ht, 4, kGrowPadded, SR) FH(ht, 5, kGrowPadded, BndPBR)
 FH(hq, 1, kGrowUnpadded, PBR) FH(ht, 3, kGrowUnpadded, BR)
 FH(hq, 0, kCorrupt, PBR) FH(hq, 3, kCorrupt, BndPBR) FH(ht, 5, kCorrupt, SR)
-FH(hq, 0, kUnknownId, PBR) FH(hq, 2, kUnknownId, SR) FH(ht, 4, kUnknownId, BR)
+FH(hq, 0, kUnknownId, PBR) FH(ht, 2, kUnknownId, SR) FH(ht, 4, kUnknownId, BR)
 FH(hq, 1, kDeletedId, PBR) FH(ht, 3, kDeletedId, SR)
 
 // Harness A: all byte strings of length N vs. the reference table decoder
 #define LH(tier, N) extern "C" void tier##_frame_lang_TF_n##N(void) { lang_harness<TF, N>(); }
-LH(hq, 2) LH(hq, 4) LH(hq, 6) LH(hq, 8) LH(ht, 3) LH(ht, 5) LH(ht, 7) LH(ht, 10) LH(ht, 12)
+LH(hq, 2) LH(hq, 4) LH(hq, 6) LH(ht, 8) LH(ht, 3) LH(ht, 5) LH(ht, 7) LH(ht, 10) LH(ht, 12)
